@@ -19,7 +19,7 @@ EXPLANATION = (
 
 def run(tier):
     cr = CheckRun("C04", tier, "other", EXPLANATION, "DESIGN §4 C04")
-    cr.contracts(["contracts.c04", "contracts.c03", "contracts.c02"])
+    cr.contracts(["contracts.c04", "contracts.c03", "contracts.c02", "contracts.c05b"])
     progs = gen.c04_scope(tier)
     ticks = 48 if tier == "quick" else 120
     for optimize in (True, False):
